@@ -25,7 +25,7 @@ RULE = (
     'pause/play landed while the process was in a waiting step, paused, or with a request pending; distinct = '
     'distinct event-log digest.'
 )
-BUDGET = {'quick': (60000, 55), 'thorough': (4_000_000, 600)}
+BUDGET = {'quick': (150000, 55), 'thorough': (4_000_000, 600)}
 COMPONENTS = dict(common.COMPONENTS, real=common.COMPONENTS['real'] + ['plumpy.workchains (WorkChain, Waiting with awaitables, to_context)'])
 ASSUMPTIONS = ['FIFO ready queue', 'awaited futures complete with values (failing items are C10)']
 EXPECTED_COUNTERS = ['probe:awaited_child', 'probe:resume_on_interrupted_wait', 'probe:complete_while_paused', 'probe:pause_after_wakeup_same_position',
